@@ -1,8 +1,10 @@
 package main
 
 import (
+	"fmt"
 	"go/token"
 	"go/types"
+	"sort"
 
 	"golang.org/x/tools/go/ssa"
 )
@@ -395,4 +397,153 @@ func clBuilderChaining(c *Ctx) {
 		f, _ := loadedField(sfi.RetVal(ret, 0))
 		c.Check(f == fStore, asm, ret, "Assemble returns the builder's store", "")
 	}
+}
+
+// Assemble decision table (C18.c / C14): Builder.Assemble is interpreted on three
+// segments of heights -1 (empty) .. 2; for every level the links it makes must be
+// exactly: head sentinel -> first segment that has the level, tail of each such
+// segment -> head of the next one, last tail -> tail sentinel.
+func clAssembleTable(c *Ctx) {
+	p := c.P
+	fn := p.Func("skiplist", "Builder", "Assemble")
+	fHead := p.Field("skiplist", "Segment", "head")
+	fTail := p.Field("skiplist", "Segment", "tail")
+	fSHead := p.Field("skiplist", "Skiplist", "head")
+	fSTail := p.Field("skiplist", "Skiplist", "tail")
+	setNext := p.Func("skiplist", "Node", "setNext")
+	type seg struct{ id int }
+	type nd struct {
+		seg, level int
+		tail       bool
+	}
+	type link struct {
+		from  interface{}
+		level int64
+		to    interface{}
+	}
+	var bad []string
+	msg := ""
+	heights := []int{-1, 0, 1, 2}
+	total := 0
+	for _, h0 := range heights {
+		for _, h1 := range heights {
+			for _, h2 := range heights {
+				if msg != "" {
+					break
+				}
+				hs := []int{h0, h1, h2}
+				segs := []*seg{{0}, {1}, {2}}
+				var links []link
+				it := &interp{p: p}
+				it.elemMem = map[elemAddr]ival{}
+				it.loadElem = func(a elemAddr) (ival, bool) {
+					switch b := a.base.(type) {
+					case string:
+						if b == "segments" && a.idx >= 0 && int(a.idx) < len(segs) {
+							return ival{kind: 'p', h: segs[a.idx]}, true
+						}
+					case nd: // element of seg.head / seg.tail: base encodes (seg, which)
+						s := b.seg
+						if int(a.idx) <= hs[s] {
+							return ival{kind: 'p', h: nd{s, int(a.idx), b.tail}}, true
+						}
+						return ival{kind: 'p', h: nil}, true
+					}
+					return ival{}, false
+				}
+				it.load = func(chain []*types.Var, root ssa.Value, env map[ssa.Value]ival) (ival, bool) {
+					if len(chain) == 0 {
+						return ival{kind: 'p', h: root}, true
+					}
+					switch chain[len(chain)-1] {
+					case fSHead:
+						return ival{kind: 'p', h: "HEAD"}, true
+					case fSTail:
+						return ival{kind: 'p', h: "TAIL"}, true
+					}
+					return ival{kind: 'p', h: chain[len(chain)-1]}, true
+				}
+				it.loadAddr = func(u *ssa.UnOp, env map[ssa.Value]ival) (ival, bool) {
+					fa, ok := u.X.(*ssa.FieldAddr)
+					if !ok {
+						return ival{}, false
+					}
+					f := fieldVarOf(fa)
+					if f != fHead && f != fTail {
+						return ival{}, false
+					}
+					b := it.val(fa.X, env)
+					sg, ok := b.h.(*seg)
+					if !ok {
+						outsidef("segment field read through an unknown base")
+					}
+					// the slice value: a handle that loadElem understands
+					return ival{kind: 'p', h: nd{sg.id, -1, f == fTail}}, true
+				}
+				it.call = func(ci *ssa.Call, args []ival, env map[ssa.Value]ival) (ival, bool) {
+					if p.CallsAny(ci, setNext) {
+						links = append(links, link{args[0].h, args[1].i, args[2].h})
+						return ival{kind: 'u'}, true
+					}
+					if isBuiltin(ci, "len") {
+						return ival{kind: 'i', i: int64(len(segs))}, true
+					}
+					sig := ci.Call.Signature()
+					if sig.Results().Len() == 0 {
+						return ival{kind: 'u'}, true
+					}
+					return ival{kind: 'p', h: ci}, true
+				}
+				it.ignoreStore = func(*ssa.Store) bool { return true }
+				env := map[ssa.Value]ival{fn.Params[1]: {kind: 'p', h: "segments"}}
+				it.steps = -200000 // generous budget: 33 levels x 3 segments
+				m := tryInterp(func() { it.Run(fn, fn.Blocks[0], 0, env) })
+				if m != "" {
+					msg = m
+					break
+				}
+				total++
+				// reference links
+				want := map[string]bool{}
+				for l := 0; l <= 2; l++ {
+					var prev interface{} = "HEAD"
+					any := false
+					for s := 0; s < 3; s++ {
+						if hs[s] >= l {
+							want[fmt.Sprint(link{prev, int64(l), nd{s, l, false}})] = true
+							prev = nd{s, l, true}
+							any = true
+						}
+					}
+					if any {
+						want[fmt.Sprint(link{prev, int64(l), "TAIL"})] = true
+					}
+				}
+				got := map[string]bool{}
+				for _, lk := range links {
+					got[fmt.Sprint(lk)] = true
+				}
+				for k := range want {
+					if !got[k] {
+						bad = append(bad, fmt.Sprintf("segment heights %v: missing link %s", hs, k))
+					}
+				}
+				for k := range got {
+					if !want[k] {
+						bad = append(bad, fmt.Sprintf("segment heights %v: unexpected link %s", hs, k))
+					}
+				}
+			}
+		}
+	}
+	if msg != "" {
+		c.Undecided(fn, nil, "Assemble decision table", "outside the fragment: "+msg)
+		return
+	}
+	det := ""
+	if len(bad) > 0 {
+		sort.Strings(bad)
+		det = fmt.Sprintf("%d deviations over %d scenarios; e.g. %s — after a bulk build or restore some level is not reachable from the head, does not end at the tail, or skips a segment", len(bad), total, bad[0])
+	}
+	c.Check(len(bad) == 0, fn, nil, "Assemble decision table: per level, head -> first segment having it, tails -> next heads, last tail -> tail sentinel", det)
 }
